@@ -599,6 +599,48 @@ def reduce_closures(f, F=None):
                 yield n, cl
 
 
+ACCESSORS = ("reg_values_out", "memory_values_out", "live_in", "u_def", "live_out", "reg_values_in", "memory_values_in")
+
+
+def meet_sites(F, f):
+    """the `.reduce(..)`/`.fold(..)` calls of a pass: in its `run` body and in the helper functions of the same module that `run`
+    calls (a fold moved into `fn meet_of_visited_prevs(node, visited, accessor)` is still the pass's meet).
+    -> [(reduce call, closure-like, set of fact accessors the chain reads, where it is called from)]"""
+    out = []
+    for call, cl in reduce_closures(f, F):
+        srcs = {a for a in ACCESSORS if chain_mentions(call, a)}
+        out.append((call, cl, srcs, call, {}))
+    mod = f["path"].split(" as ")[0].lstrip("<").rsplit("::", 1)[0]
+    for c in walk(f["hir"]["value"], pats=False):
+        if c.get("k") not in ("Call", "MethodCall"):
+            continue
+        q = callee_of(c) or ""
+        g = F.fns.get(q)
+        if not g or "hir" not in g or "::analysis::" not in q or q == f["path"] or "{closure" in q:
+            continue
+        pnames = [p_.get("name") for p_ in g["hir"]["params"]]
+        args = call_recv_args(c)[1] if c.get("k") == "MethodCall" else c["args"]
+        if c.get("k") == "MethodCall":
+            args = [c["recv"]] + list(c["args"])
+        for call, cl in reduce_closures(g, F):
+            srcs = {a for a in ACCESSORS if chain_mentions(call, a)}
+            # an accessor handed in as a function argument (`CfgNode::reg_values_out`)
+            for pn, a in zip(pnames, args):
+                a2 = peel(a)
+                if a2.get("k") == "Path" and short(a2.get("res") or "") in ACCESSORS and pn and any(
+                        y.get("k") == "Call" and peel(y["f"]).get("k") == "Path" and peel(y["f"]).get("res") == pn for y in walk(call, pats=False)):
+                    srcs.add(short(a2["res"]))
+            sub = {}
+            for pn, a in zip(pnames, args):
+                a2 = peel(a)
+                while a2.get("k") == "AddrOf":
+                    a2 = peel(a2["e"])
+                if pn and a2.get("k") == "Path" and a2.get("res_kind") == "Local":
+                    sub[pn] = a2["res"]
+            out.append((call, cl, srcs, c, sub))
+    return out
+
+
 def chain_mentions(n, name):
     r = n
     while r.get("k") == "MethodCall":
@@ -623,8 +665,8 @@ def c01c(F, R):
     if band is None:
         raise Anchor("BitAndAssign for AvailableValueMap not found")
     n = 0
-    for call, cl in reduce_closures(f, F):
-        src = "reg_values_out" if chain_mentions(call, "reg_values_out") else ("memory_values_out" if chain_mentions(call, "memory_values_out") else None)
+    for call, cl, srcs, at, _sub in meet_sites(F, f):
+        src = "reg_values_out" if "reg_values_out" in srcs else ("memory_values_out" if "memory_values_out" in srcs else None)
         if src is None:
             continue
         n += 1
@@ -662,16 +704,16 @@ def c02c(F, R):
     if not bor or not bnd:
         raise Anchor("BitOr/BitAnd for RegisterSet not found")
     nl = nu = 0
-    for call, cl in reduce_closures(f, F):
+    for call, cl, srcs, at, _sub in meet_sites(F, f):
         body = peel(cl["body"])
         c = callee_of(body) if body.get("k") == "Binary" else None
-        if chain_mentions(call, "live_in"):
+        if "live_in" in srcs:
             nl += 1
             if c == bor[0]:
                 R.ok(f"live_out|{nl}", detail="live_out[n] = fold(|) over successors' live_in", where=loc(call))
             else:
                 R.bad("live_out", f"successors' live_in are combined with {short(c or '?')} instead of union", loc(call))
-        elif chain_mentions(call, "u_def"):
+        elif "u_def" in srcs:
             nu += 1
             if c == bnd[0]:
                 R.ok(f"u_def|{nu}")
@@ -1695,7 +1737,7 @@ def c12e(F, R):
             if st.get("k") == "Let" and st["pat"].get("k") == "PBinding":
                 outer_lets.add(st["pat"]["name"])
         n = 0
-        for call, cl in reduce_closures(f, F):
+        for call, cl, _srcs, _at, sub in meet_sites(F, f):
             # walk the chain below the reduce for filters
             r = call["recv"]
             while r.get("k") == "MethodCall":
@@ -1708,8 +1750,8 @@ def c12e(F, R):
                     why = "the filter is not a membership test"
                     if body.get("k") == "MethodCall" and body["name"] in ("contains", "contains_key"):
                         s = peel(body["recv"])
-                        if s.get("k") == "Path" and s.get("res_kind") == "Local" and s["res"] in outer_lets:
-                            S = s["res"]
+                        if s.get("k") == "Path" and s.get("res_kind") == "Local" and sub.get(s["res"], s["res"]) in outer_lets:
+                            S = sub.get(s["res"], s["res"])   # a helper's parameter stands for the set that the pass hands in
                             muts = {m["name"] for m in walk(loop, pats=False) if m.get("k") == "MethodCall" and ekey(m["recv"]) == S} - {"contains", "contains_key", "len", "is_empty"}
                             reassigned = any(a.get("k") == "Assign" and ekey(a["l"]) == S for a in walk(loop, pats=False))
                             if muts <= {"insert"} and "insert" in muts and not reassigned:
@@ -2703,7 +2745,10 @@ def c06u(F, R):
     for f, name in ((_avpass_run(F), "AvailableValuePass"), (_livepass_run(F), "LivenessPass")):
         body = f["hir"]["value"]
         sites = []
-        for m in walk(body, pats=False):
+        # the pass's own body and the helper functions of the analysis module it calls
+        bodies = [body] + [F.fns[q_]["hir"]["value"] for q_ in sorted({callee_of(c_) or "" for c_ in walk(body, pats=False) if c_.get("k") in ("Call", "MethodCall")})
+                           if q_ in F.fns and "hir" in F.fns[q_] and "::analysis::" in q_ and "{closure" not in q_ and q_ != f["path"]]
+        for m in (x_ for b_ in bodies for x_ in walk(b_, pats=False)):
             if m.get("k") == "MethodCall" and m["name"] in ("unwrap_or_default", "unwrap_or") and peel(m["recv"]).get("k") == "MethodCall" and peel(m["recv"])["name"] == "reduce":
                 red = peel(m["recv"])
                 cl = (closure_like(F, red["args"][0]) or {}) if red["args"] else {}
